@@ -1,9 +1,10 @@
 ----------------------------- MODULE MC_GraphSM -----------------------------
 (* every behaviour of add_edge on 3 vertices up to 4 edges (loops, parallel edges, both orientations); each state is
    exported with its incidence lists and line graph for replay into cspuz.graph.Graph; plus the lattice builders *)
-EXTENDS GraphSM, Json, TLC, Integers
+EXTENDS GraphSM, Json, TLC, Integers, IOUtils
 
-MCNV == 3
+(* quick: 3 vertices, 4 calls (7 381 states); thorough: 4 vertices, 4 calls (69 905 states) *)
+MCNV == IF IOEnv.TIER = "thorough" THEN 4 ELSE 3
 MCMaxE == 4
 
 GridSizes == {<<h, w>> : h \in 1 .. 4, w \in 1 .. 4}
